@@ -197,6 +197,20 @@ CLAIMED = {
         note="Trusted: Coq kernel; posixpath.normpath as the lexical clean of absolute paths in the judge; extraction, driver, harness, differ.",
         technique="Coq proof (entry lemmas, C16 navigation) + exhaustive correspondence + clause evaluation on the implementation",
         ref="§7 C10"),
+
+    "C13": dict(
+        text="The routing tables of `impl VirtualFileSystem for Vfs`, `impl Entry for VfsEntry` and `impl VirtualFileSystem for Stdfs` are regenerated from "
+             "the current source on every run (Wrap/Routes.v). Coq theorems: every trait method is dispatched in both arms by the identity route (same "
+             "callee, same arguments in the same order, only `.upcast()` allowed as a suffix where the trait says so), default methods are not overridden, "
+             "and for ANY backend semantics, state, argument list and history an identity-routed call returns exactly what the direct call returns and has "
+             "exactly its effect (wrapper_transparent, history_transparent). A wrapper body the translator cannot read as a plain dispatch is a broken "
+             "obligation. Tied by running every BFS history of the bounded namespace and random histories on a Memfs value directly and through Vfs::Memfs, "
+             "random sandbox histories on Stdfs directly and through Vfs::Stdfs (results + full state / observed tree), and all sixteen Entry accessors over "
+             "every follow / upcast / clone sequence up to length 3 on MemfsEntry / StdfsEntry directly and through VfsEntry.",
+        note="Trusted: Coq kernel; tools/translators.py gen_routes (fails closed); Rust's enum dispatch semantics (a match arm evaluates the call it "
+             "contains); harness/src/wrap.rs; HashSet-order effects canonicalised (DESIGN.md Corrections).",
+        technique="Translator-generated routing tables + Coq proof (parametric transparency) + direct-vs-wrapped transcripts",
+        ref="§7 C13"),
 }
 
 NOT_APPLICABLE = {}
